@@ -90,7 +90,7 @@ def showState (s : St) (n : Nat) : String :=
   let nn := s.nonces.length
   let sce := if [FACTORY, UNSTAKE, TRANSFER, WRAPPER, COLLECTOR].all (fun a => (s.energy a).isNone) then "0" else "1"
   s!"ep={s.epoch} ps={if s.paused then 1 else 0} N={showNats s.nonces} WN={showNats s.wnonces} " ++
-  s!"opts={showPairs "," s.opts} bp={s.burnPct} wl={showNats s.wl} " ++
+  s!"opts={showPairs "," s.opts} bp={s.burnPct} wl={showNats ((List.range SCBASE).filter (· ∈ s.wl))} " ++
   " ".intercalate ((List.range n).map fun k => showUser s (k + 1)) ++
   s!" fac={showRow (s.bal FACTORY) nn} un={showRow (s.bal UNSTAKE) nn}/{s.base UNSTAKE} " ++
   s!"tr={showRow (s.bal TRANSFER) nn} wr={showRow (s.bal WRAPPER) nn} x={showXfers s.xfers} " ++
